@@ -79,6 +79,9 @@ def REQUIRE(tier):
          "scu_b001_repository_unasserted": 1,
          "scp_probes": 700, "scp_pending_nonfinal_with_identifier": 10, "scp_pending_nonfinal": 13,
          "scp_nonpending_final": 500, "scp_outside_table_probes": 300}
+    if tier == "thorough":
+        r.update({"scp_probes": 25000, "scp_table_probes": 24000, "scu_probes": 5000,
+                  "scu_nonpending_stopped": 4900})
     for s in SERVICES:
         r["scu_service_" + s] = 40
         r["scp_service_" + s] = 40
@@ -680,6 +683,7 @@ def _scp_probe(peer, op, sop, msgid, first_timeout=2.5, stats=None):
 
 def run_scp(case):
     from pynetdicom import evt, build_context
+    from pynetdicom.status import code_to_category
     from vlib import cmdset, harness, ps38
     from vlib.peer import Peer
     svc = case["service"]
@@ -743,10 +747,10 @@ def run_scp(case):
                                 "responses": [("0x%04X" % s if s is not None else None) + ("+data" if r["data"] else "")
                                               for s, r in zip(stats, mine)]})
             detail = ("%s SCP on %s (%s), handler yields (0x%04X, data) then (0xFF00, data) x2; code %s the "
-                      "service's table(s) %s; reference category %s%s.  Responses received before the C-ECHO fence: "
-                      "%s; handler log: %s" % (
+                      "service's table(s) %s; reference category %s%s; pynetdicom's SCU side (code_to_category) "
+                      "treats it as %s.  Responses received before the C-ECHO fence: %s; handler log: %s" % (
                           opk.upper(), svc, sop, code, "is in" if origin == "table" else "is NOT in", names, rcat,
-                          " (a Pending status of this service)" if code in pend else "",
+                          " (a Pending status of this service)" if code in pend else "", code_to_category(code),
                           [("0x%04X" % s if s is not None else "None") + ("+dataset" if r["data"] else "")
                            for s, r in zip(stats, mine)], log))
             if foreign:
